@@ -898,10 +898,8 @@ pub fn lis(
     let block_index = {
         let block = control_flow_graph.new_block()?;
 
-        let src = Expression::or(
-            Expression::and(src.clone(), expr_const(0x0000_ffff, 32))?,
-            Expression::shl(src, expr_const(16, 32))?,
-        )?;
+        // the immediate is the upper halfword, the lower halfword is zero
+        let src = Expression::shl(src, expr_const(16, 32))?;
 
         block.assign(dst, src);
 
